@@ -47,6 +47,11 @@ func (w *World) CheckFrameAndTags(o *Obs) []Violation {
 					want[recKey(w.P.NameOf(i), cu.Field, cu.Val, cu.Args)]++
 				}
 			}
+			for _, cf := range w.Types[i.Type].Config {
+				if cf.Also != nil && cf.Also.Tag == sc.Tag {
+					want[recKey(w.P.NameOf(i), cf.Field, cf.Also.Val, cf.Also.Args)]++
+				}
+			}
 		}
 		got := map[string]int{}
 		for _, r := range o.TagRecords[sc.ID] {
@@ -117,6 +122,9 @@ func CheckTwins(pFlat *sdl.Program, cfg map[string]string, flat, emb *Obs) []Vio
 		}
 	}
 	for _, h := range sdl.SortedKeys(flat.Cfg) {
+		if !cf[h] || !ce[h] {
+			continue
+		}
 		for _, f := range sdl.SortedKeys(flat.Cfg[h]) {
 			if flat.Cfg[h][f] != emb.Cfg[h][f] {
 				vs = append(vs, v("C11", "twin-config-differs", h+"."+f, fmt.Sprintf("configuration field %s.%s is %q when declared directly and %q when declared inside embedded structs", h, f, flat.Cfg[h][f], emb.Cfg[h][f])))
@@ -124,12 +132,29 @@ func CheckTwins(pFlat *sdl.Program, cfg map[string]string, flat, emb *Obs) []Vio
 		}
 	}
 	for _, sc := range sdl.SortedKeys(flat.TagRecords) {
+		// only components created in both twins (a lazy component may be reached through a
+		// tied choice in one twin only); default names differ in the type-name prefix, so
+		// records are keyed by instance id
+		both := func(name string, p *sdl.Program) string {
+			for _, i := range pFlat.Instances {
+				if (i.Alias != "" && i.Alias == name) || (i.Alias == "" && strings.HasSuffix(name, i.Type[strings.Index(i.Type, "T"):]) && strings.HasPrefix(name, sdl.PkgPath)) {
+					if cf[i.ID] && ce[i.ID] {
+						return i.ID
+					}
+				}
+			}
+			return ""
+		}
 		ka, kb := map[string]int{}, map[string]int{}
 		for _, r := range flat.TagRecords[sc] {
-			ka[recKey(strings.TrimPrefix(r.Comp, ""), r.Field, r.Val, r.Args)]++
+			if id := both(r.Comp, pFlat); id != "" {
+				ka[recKey(id, r.Field, r.Val, r.Args)]++
+			}
 		}
 		for _, r := range emb.TagRecords[sc] {
-			kb[recKey(r.Comp, r.Field, r.Val, r.Args)]++
+			if id := both(r.Comp, pFlat); id != "" {
+				kb[recKey(id, r.Field, r.Val, r.Args)]++
+			}
 		}
 		if len(ka) != len(kb) {
 			vs = append(vs, v("C11", "twin-tag-records-differ", sc, fmt.Sprintf("scanner %s received %d distinct fields in the flat program and %d in the embedded one", sc, len(ka), len(kb))))
